@@ -1,5 +1,7 @@
 import TSSVerif.Model.Net
 import TSSVerif.Gen.Net
+import TSSVerif.Gen.Stmts
+import TSSVerif.Model.StmtsExpected
 /-!
 # C16 — the transport attributes traffic only to peers that proved their registered identity
 
@@ -239,5 +241,11 @@ def okEnv : Env Nat Unit Unit where
   table := fun k => if k = [1, 2] then some 5 else none
 
 example : authenticate okEnv 4 [4] = .accept [1] 5 ∧ authenticate okEnv 6 [4] = .reject .binding := by decide
+
+/-- **The source the model was transcribed from is the current source**: the statements of `handleConn`, `authenticateConnection`, `sha256Digest`, `extractTLSBinding`, the handshake codec and `ServiceConnections`, regenerated from
+`/repo` on this run, are the committed ones (logging left out). A change of any of them — harmless or not — fails here
+first; the differential and monitored runs of this property are then the search for an input on which it fails. -/
+theorem source_as_modelled : TSSVerif.Gen.Stmts.auth = TSSVerif.Model.StmtsExpected.auth := by
+  decide +kernel
 
 end TSSVerif.Props.C16
